@@ -47,7 +47,7 @@ def small_d_work(payload):
             for inn, n2 in enumerate(range(-j2, j2 + 1, 2)):
                 ref = float(refmath.wigner_d(j2, m2, n2, b, mp=mp))
                 g = float(got[ib, im, inn])
-                res.case(nontrivial_key=("d", j2, m2, n2, ib) if abs(ref) > 1e-9 else None)
+                res.case(nontrivial_key=("d", j2, m2, n2, ib) if abs(ref) > 1e-9 else None, outcome=("d", j2, 0 if abs(ref) <= 1e-9 else (1 if ref > 0 else -1)))
                 if not abs(g - ref) <= 1e-12:
                     res.violation("small_d:value", "d^{%s}_{%s,%s}(%r) = %r, exact %r" % (j2 / 2, m2 / 2, n2 / 2, b, g, ref),
                                   {"part": "small_d", "j2": j2, "seed": seed})
@@ -80,7 +80,7 @@ def dmatrix_work(payload):
     for t, (a, b, g) in enumerate(trip):
         d = np.array([[refmath.wigner_d(j2, m2, n2, b) for n2 in range(-j2, j2 + 1, 2)] for m2 in range(-j2, j2 + 1, 2)])
         ref = np.exp(1j * ms[:, None] * a) * d * np.exp(1j * ms[None, :] * g)
-        res.case(nontrivial_key=("D", j2, t))
+        res.case(nontrivial_key=("D", j2, t), outcome=("D", j2))
         if not np.allclose(D[t], ref, atol=1e-12, rtol=0):
             res.violation("D:value", "D_matrix_conj(%r,%r,%r, 2j=%d) differs from e^{ima} d e^{ing} by %g" % (a, b, g, j2, np.abs(D[t] - ref).max()), case)
         u = D[t] @ D[t].conj().T
@@ -158,7 +158,7 @@ def cg_work(payload):
         # the library is called the way HelicityDecay calls it: plain ints / floats
         fl = [int(a) if isinstance(a, int) or a.denominator == 1 else float(a) for a in args]
         got = cg_coef(*fl)
-        res.case(nontrivial_key=("cg",) + lab if abs(ref) > 1e-12 else None)
+        res.case(nontrivial_key=("cg",) + lab if abs(ref) > 1e-12 else None, outcome=("cg", str(Fraction(ref).limit_denominator(1000)) if abs(ref) > 1e-12 else "0"))
         case = {"part": "cg", "labels": [lab]}
         if not abs(got - ref) <= 1e-12:
             res.violation("cg:value", "cg_coef<%s %s; %s %s|%s %s> = %r, Racah %r" % (fl[0], fl[2], fl[1], fl[3], fl[4], fl[5], got, ref), case)
